@@ -138,6 +138,34 @@ func corpus() []caseSpec {
 			{ops: []op{{"add", 35, v(7, 8)}, {"rm", 30, persistx.Val{}}}, commit: true},
 		}})
 	}
+	// (4) actively persisted, the mechanisms of the whole-history theorem (Lean: sampleActive,
+	// C19_interior_remove_harmless_when_active): update of a key added by the same transaction (value stays inline, no
+	// second blob), two updates of one key in one transaction (inline -> blob of the same id -> new id and blob), an
+	// empty transaction, a rolled-back update of a value that lives in its blob, a skipped add+remove transaction in a
+	// store that is not actively persisted; and the interior-remove history, harmless in an actively persisted store
+	actC, _ := persistx.PlacementByName("activeCache")
+	for _, pl := range []persistx.Placement{act, actC} {
+		out = append(out, caseSpec{label: "active-id-frame", pl: pl, slot: 4, txns: []txn{
+			{ops: []op{{"add", 1, v(1, 8)}, {"upd", 1, v(2, 8)}, {"add", 2, v(3, 8)}}, commit: true},
+			{ops: []op{{"upd", 1, v(4, 8)}, {"upd", 1, v(5, 8)}, {"rm", 2, persistx.Val{}}}, commit: true},
+			{ops: nil, commit: true},
+			{ops: []op{{"upd", 1, v(6, 8)}}, commit: false},
+			{ops: []op{{"upd", 1, v(7, 8)}}, commit: true},
+		}})
+		out = append(out, caseSpec{label: "active-interior-remove", pl: pl, slot: 2, txns: []txn{
+			{ops: []op{{"add", 10, v(1, 8)}, {"add", 20, v(2, 8)}, {"add", 30, v(3, 8)}, {"add", 40, v(4, 8)}, {"add", 50, v(5, 8)}}, commit: true},
+			{ops: []op{{"add", 25, v(6, 8)}, {"rm", 20, persistx.Val{}}}, commit: true},
+			{ops: []op{{"add", 35, v(7, 8)}, {"rm", 30, persistx.Val{}}}, commit: true},
+		}})
+	}
+	for _, pl := range []persistx.Placement{inn, sep} {
+		out = append(out, caseSpec{label: "skipped-add-remove", pl: pl, slot: 4, txns: []txn{
+			{ops: []op{{"add", 1, v(1, 8)}}, commit: true},
+			{ops: []op{{"add", 7, v(7, 8)}, {"upd", 7, v(8, 8)}, {"rm", 7, persistx.Val{}}}, commit: true},
+			{ops: nil, commit: true},
+			{ops: []op{{"upd", 1, v(2, 8)}}, commit: true},
+		}})
+	}
 	return out
 }
 
